@@ -42,6 +42,7 @@ var (
 	fDump      = flag.Bool("dump-hashes", false, "record per-run log hashes")
 	fHashOut   = flag.String("hash-out", "", "file for distinct nontrivial run hashes")
 	fCrashFile = flag.String("crash-file", "", "file that always holds the case being executed")
+	fReverse   = flag.Bool("reverse", false, "with -max-runs: execute the runs in reverse order")
 )
 
 const site = "goz.(*Limiter)"
@@ -796,7 +797,11 @@ func TestWorker(t *testing.T) {
 		if *fMaxRuns == 0 && i&7 == 0 && time.Now().After(deadline) {
 			break
 		}
-		rs := sim.Mix(*fSeed, "C19", *fWorker, i)
+		ri := i
+		if *fReverse && *fMaxRuns > 0 {
+			ri = *fMaxRuns - 1 - i
+		}
+		rs := sim.Mix(*fSeed, "C19", *fWorker, ri)
 		r := sim.NewRng(rs)
 		c := gen(r, *fTier)
 		c.Property, c.Engine, c.Seed = "C19", "B", rs>>12
@@ -841,6 +846,11 @@ func TestWorker(t *testing.T) {
 			out.AddViolation(c)
 		} else if len(out.Samples) < 2 && info.maxParked >= 2 {
 			out.Samples = append(out.Samples, c)
+		}
+	}
+	if *fReverse {
+		for a, b := 0, len(out.RunHashes)-1; a < b; a, b = a+1, b-1 {
+			out.RunHashes[a], out.RunHashes[b] = out.RunHashes[b], out.RunHashes[a]
 		}
 	}
 	out.Nontrivial = len(seen)
